@@ -256,12 +256,20 @@ impl<'a> Gen<'a> {
             I8 => v.extend([Doc::Int(128), Doc::Neg(-129), Doc::Neg(-128)]),
             NzU8 => v.extend([Doc::Int(0), Doc::Int(256)]),
             NzI8 => v.extend([Doc::Int(0), Doc::Int(128), Doc::Neg(-129)]),
-            Char => v.extend([Doc::s(""), Doc::s("ab"), Doc::s("é")]),
+            Char => v.extend([
+                Doc::s(""),
+                Doc::s("ab"),
+                Doc::s("é"),
+                // long strings whose multi-byte characters straddle every plausible truncation offset
+                Doc::Str(format!("a{}", "é".repeat(40))),
+                Doc::Str("é".repeat(40)),
+                Doc::Str(format!("ab{}", "😀".repeat(70))),
+            ]),
             U64 => v.extend([Doc::Int(u64::MAX)]),
             I64 => v.extend([Doc::Int(u64::MAX), Doc::Neg(i64::MIN)]),
             F32 => v.extend([Doc::Float(1e39), Doc::Int(u64::MAX)]),
             Bool => v.extend([Doc::Bool(false)]),
-            Str => v.extend([Doc::s("")]),
+            Str => v.extend([Doc::s(""), Doc::Str(format!("a{}", "é".repeat(40)))]),
             _ => {}
         }
         v
@@ -371,7 +379,7 @@ impl<'a> Gen<'a> {
             }
             Ty::Cs(_) => {
                 Self::replace_with_other_kinds(doc, loc, out);
-                for s in ["", ",", "1,,2", "1,x", "300", "a", ",7,"] {
+                for s in ["", ",", "1,,2", "1,x", "300", "a", ",7,", " ", "1, ,3", "a, ,b", " 1", "2 ", "1,\t,2", ",,", "0,255,256"] {
                     out.push(Edit { loc: loc.clone(), op: Op::Replace(Doc::s(s)) });
                 }
             }
